@@ -65,7 +65,7 @@ structure Loop where
 inductive CErr where
   | err (pos : Pos) (msg : String)     -- *CompilerError
   | bare (msg : String)                -- errors returned without a node (ErrSymbolLimit)
-  | panic (msg : String)               -- Go panic inside the compiler (emit / changeOperand)
+  | panic (msg : String)               -- Go panic that escapes Compile (nil dereference, index out of range, constLit misuse)
   | unsupported (msg : String)
   deriving Repr, Inhabited
 
@@ -146,56 +146,78 @@ def operandWidths (op : Nat) : List Nat :=
   else if op == OpSetupTry then [4, 4]
   else []
 
+/-- number of opcodes: `OpcodeOperands` / `OpcodeNames` are arrays of this length, indexing them
+    with a larger opcode byte is a Go index-out-of-range panic -/
+def numOpcodes : Nat := 44
+
+/-- number of operand bytes of an instruction -/
+def opWidth (op : Nat) : Nat := (operandWidths op).sum
+
 def maxOf (w : Nat) : Int :=
   if w == 1 then 255 else if w == 2 then 65535 else 2147483647
 
 def beBytes (w : Nat) (v : Nat) : List UInt8 :=
   (List.range w).map fun i => UInt8.ofNat ((v >>> (8 * (w - 1 - i))) % 256)
 
-/-- `MakeInstruction`: error (→ panic in emit/changeOperand) when an operand does not fit -/
+/-- range check and big-endian encoding of the operands, first offending operand first -/
+def encodeOperands : List Nat → List Int → Except String (List UInt8)
+  | w :: ws, a :: as =>
+    if a > maxOf w then .error s!"MakeInstruction: operand {a} is greater than {maxOf w}"
+    else if a < 0 then .error s!"MakeInstruction: operand {a} is less than 0"
+    else match encodeOperands ws as with
+      | .ok bs => .ok (beBytes w a.toNat ++ bs)
+      | .error m => .error m
+  | _, _ => .ok []
+
+/-- `MakeInstruction` for a known opcode (`op < numOpcodes`; the callers check): an error when the
+    operand count is wrong or an operand does not fit its width -/
 def makeInstruction (op : Nat) (args : List Int) : Except String (List UInt8) :=
-  let ws := operandWidths op
-  if ws.length != args.length then
-    .error s!"MakeInstruction: expected {ws.length} operands, but got {args.length}"
-  else
-    let rec go : List Nat → List Int → Except String (List UInt8)
-      | w :: ws, a :: as =>
-        if a > maxOf w then .error s!"MakeInstruction: operand {a} is greater than {maxOf w}"
-        else if a < 0 then .error s!"MakeInstruction: operand {a} is less than 0"
-        else do pure (beBytes w a.toNat ++ (← go ws as))
-      | _, _ => pure []
-    do pure (UInt8.ofNat op :: (← go ws args))
+  if (operandWidths op).length != args.length then
+    .error s!"MakeInstruction: expected {(operandWidths op).length} operands, but got {args.length}"
+  else match encodeOperands (operandWidths op) args with
+    | .ok bs => .ok (UInt8.ofNat op :: bs)
+    | .error m => .error m
 
 def setSourceMap (m : List (Nat × Nat)) (k v : Nat) : List (Nat × Nat) :=
   match m with
   | [] => [(k, v)]
   | (k', v') :: r => if k == k' then (k, v) :: r else (k', v') :: setSourceMap r k v
 
-/-- `emit(node, op, operands…)`; `pos = 0` stands for `parser.NoPos` (node == nil) -/
+/-- `emit(node, op, operands…)`; `pos = 0` stands for `parser.NoPos` (node == nil).
+    An operand that does not fit is `panic(&operandError{…})`, which `compileScript` recovers and
+    returns as an error (`c.error(node, err)` when there is a node): it is an *error* of `Compile`. -/
 def emit (pos : Pos) (op : Nat) (args : List Int := []) : CM Nat := do
-  match makeInstruction op args with
-  | .error m => cpanic m
+  if op ≥ numOpcodes then cpanic s!"runtime error: index out of range [{op}] with length {numOpcodes}"
+  else match makeInstruction op args with
+  | .error m => if pos == 0 then throw (.bare m) else throw (.err pos m)
   | .ok bs =>
     let s ← get
-    let at_ := s.insts.size
-    set { s with insts := s.insts ++ bs.toArray, sourceMap := setSourceMap s.sourceMap at_ pos }
-    pure at_
+    set { s with insts := s.insts ++ bs.toArray, sourceMap := setSourceMap s.sourceMap s.insts.size pos }
+    pure s.insts.size
+
+/-- `emit` whose position result is not used -/
+def emit_ (pos : Pos) (op : Nat) (args : List Int := []) : CM Unit := do
+  let _ ← emit pos op args
+  pure ()
 
 def curPos : CM Nat := do return (← get).insts.size
 
-/-- `changeOperand(opPos, operands…)` -/
+/-- `copy(c.instructions[pos:], inst)`: never writes past the end -/
+def patch (a : Array UInt8) (p : Nat) : List UInt8 → Array UInt8
+  | [] => a
+  | b :: r => patch (a.setIfInBounds p b) (p + 1) r
+
+/-- `changeOperand(opPos, operands…)`: `c.instructions[opPos]` and `OpcodeOperands[op]` are index
+    expressions (Go panics, not recovered); a `MakeInstruction` error is the recovered `operandError`. -/
 def changeOperand (opPos : Nat) (args : List Int) : CM Unit := do
   let s ← get
   match s.insts[opPos]? with
   | none => cpanic s!"runtime error: index out of range [{opPos}]"
   | some op =>
-    match makeInstruction op.toNat args with
-    | .error m => cpanic m
-    | .ok bs =>
-      -- copy(c.instructions[pos:], inst)
-      let ins := (List.range bs.length).foldl (fun (acc : Array UInt8) i =>
-        if opPos + i < acc.size then acc.set! (opPos + i) (bs[i]!) else acc) s.insts
-      set { s with insts := ins }
+    if op.toNat ≥ numOpcodes then cpanic s!"runtime error: index out of range [{op.toNat}] with length {numOpcodes}"
+    else match makeInstruction op.toNat args with
+    | .error m => throw (.bare m)
+    | .ok bs => set { s with insts := patch s.insts opPos bs }
 
 /-! ### constants -/
 
@@ -286,11 +308,18 @@ def headTable : CM Table := do
 def modHead (f : Table → Table) : CM Unit :=
   modTables fun ts => match ts with | t :: r => f t :: r | [] => []
 
+/-- the symbol `DefineLocal` finds in the store: a BUILTIN entry is only the cache left by an
+    earlier `Resolve` of the builtin, not a definition -/
+def definedSym (name : String) (t : Table) : Option Symbol :=
+  match lookupSym name t.store with
+  | some sym => if sym.scope == .builtin then none else some sym
+  | none => none
+
 /-- `DefineLocal(name)` → (symbol, existed) -/
 def defineLocal (name : String) : CM (Symbol × Bool) := do
   let s ← get
   let t ← headTable
-  match lookupSym name t.store with
+  match definedSym name t with
   | some sym => pure (sym, true)
   | none =>
     let idx := nextIndex s.tables
@@ -304,21 +333,33 @@ def updateSym (name : String) (f : Symbol → Symbol) : CM Unit :=
     | some sym => { t with store := putSym name (f sym) t.store }
     | none => t
 
-/-- `SetParams(params…)` -/
-def setParams (pos : Pos) (params : List String) : CM Unit := do
-  if params.isEmpty then return
-  let t ← headTable
-  if t.numParams > 0 then cerr pos "parameters already defined"
-  if t.disableParams then cerr pos "parameters disabled"
-  modHead fun t => { t with numParams := params.length }
-  for p in params do
+/-- the loop of `SetParams`; `k` = number of parameters defined so far (at a duplicate `numParams`
+    is set back to it before the error is returned) -/
+def setParamsLoop (pos : Pos) : List String → Nat → CM Unit
+  | [], _ => pure ()
+  | p :: rest, k => do
     let s ← get
     let t ← headTable
-    if (lookupSym p t.store).isSome then cerr pos s!"\"{p}\" redeclared in this block"
-    let idx := nextIndex s.tables
-    let sym : Symbol := { name := p, index := idx, scope := .local_ }
-    modHead fun t => shadowBuiltin s.builtins p { t with numDefinition := t.numDefinition + 1, store := putSym p sym t.store }
-    modTables (updateMaxDefs (idx + 1))
+    if (lookupSym p t.store).isSome then do
+      modHead fun t => { t with numParams := k }
+      cerr pos s!"\"{p}\" redeclared in this block"
+    else do
+      let idx := nextIndex s.tables
+      let sym : Symbol := { name := p, index := idx, scope := .local_ }
+      modHead fun t => shadowBuiltin s.builtins p { t with numDefinition := t.numDefinition + 1, store := putSym p sym t.store }
+      modTables (updateMaxDefs (idx + 1))
+      setParamsLoop pos rest (k + 1)
+
+/-- `SetParams(params…)` -/
+def setParams (pos : Pos) (params : List String) : CM Unit := do
+  if params.isEmpty then pure ()
+  else do
+    let t ← headTable
+    if t.numParams > 0 then cerr pos "parameters already defined"
+    else if t.disableParams then cerr pos "parameters disabled"
+    else do
+      modHead fun t => { t with numParams := params.length }
+      setParamsLoop pos params 0
 
 def rootDisabled : List Table → List String
   | [] => []
@@ -377,14 +418,15 @@ def popTable : CM Table := do
   modTables fun ts => ts.drop 1
   pure t
 
-def defineConstLitSym (name : String) : CM (Option Unit) := do
-  -- returns none when the name already exists in this table
+/-- `defineConstLit(name)` followed by `s.constLit = v`: `none` when the name already exists in
+    this table -/
+def defineConstLitSym (name : String) (v : Option CVal) : CM (Option Unit) := do
   let s ← get
   let t ← headTable
   match lookupSym name t.store with
   | some _ => pure none
   | none =>
-    let sym : Symbol := { name := name, index := -1, scope := .constLit, constant := true }
+    let sym : Symbol := { name := name, index := -1, scope := .constLit, constant := true, constLit := v }
     modHead fun t => shadowBuiltin s.builtins name { t with hasConstLit := true, store := putSym name sym t.store }
     pure (some ())
 
@@ -395,6 +437,7 @@ def findByNameAll (name : String) : List Table → Option Symbol
   | [] => none
   | t :: r => match lookupSym name t.store with | some s => some s | none => findByNameAll name r
 
+
 /-! ### statements and expressions (compiler.go Compile, compiler_nodes.go) -/
 
 def constLitOfExpr : Expr → Option CVal
@@ -403,24 +446,40 @@ def constLitOfExpr : Expr → Option CVal
   | .undef _ => some .undefined
   | _ => none
 
+/-- `c.emit(node, OpConstant, c.addConstant(v))` -/
+def emitConstant (pos : Pos) (v : CVal) : CM Unit := do
+  let i ← addConstant v
+  emit_ pos OpConstant [i]
+
+/-- `index := c.addConstant(fn)` followed by CLOSURE index nfree, or CONSTANT index when nothing is captured -/
+def emitFnConstant (pos : Pos) (fn : CFn) (nfree : Nat) : CM Unit := do
+  let idx ← addFnConstant fn
+  if nfree > 0 then emit_ pos OpClosure [idx, nfree]
+  else emit_ pos OpConstant [idx]
+
 def emitConstLit (pos : Pos) (v : CVal) : CM Unit := do
   match v with
-  | .bool true => discard <| emit pos OpTrue
-  | .bool false => discard <| emit pos OpFalse
-  | .undefined => discard <| emit pos OpNull
-  | v => do let i ← addConstant v; discard <| emit pos OpConstant [i]
+  | .bool true => emit_ pos OpTrue
+  | .bool false => emit_ pos OpFalse
+  | .undefined => emit_ pos OpNull
+  | v => emitConstant pos v
 
-/-- `resolveAssignLHS` -/
-def resolveAssignLHS : Expr → String × List Expr
-  | .selector _ e sel => let (n, ss) := resolveAssignLHS e; (n, ss ++ [sel])
-  | .index _ e i => let (n, ss) := resolveAssignLHS e; (n, ss ++ [i])
-  | .ident _ n => (n, [])
-  | _ => ("", [])
+/-- first component of `resolveAssignLHS` -/
+def lhsName : Expr → String
+  | .selector _ e _ => lhsName e
+  | .index _ e _ => lhsName e
+  | .ident _ n => n
+  | _ => ""
 
-/-- `resolveIndexExprs` -/
-def resolveIndexExprs : Expr → Expr × List Expr
-  | .index _ e i => let (b, is) := resolveIndexExprs e; (b, is ++ [i])
-  | e => (e, [])
+/-- length of the second component of `resolveAssignLHS` -/
+def lhsNumSel : Expr → Nat
+  | .selector _ e _ => lhsNumSel e + 1
+  | .index _ e _ => lhsNumSel e + 1
+  | _ => 0
+
+def isSelOrIndex : Expr → Bool
+  | .selector .. | .index .. => true
+  | _ => false
 
 def isBinaryOperator (tok : Nat) : Bool :=
   (tAdd ≤ tok && tok ≤ tAndNot) || tok == tLAnd || tok == tLOr || tok == tEqual || tok == tNotEqual
@@ -439,140 +498,377 @@ def currentLoop : CM (Option Loop) := do return (← get).loops.head?
 def modLoop (f : Loop → Loop) : CM Unit :=
   modify fun s => { s with loops := match s.loops with | l :: r => f l :: r | [] => [] }
 
-/-- `Bytecode()` epilogue: append RETURN 0 unless the stream already ends in RETURN and no
-    jump targets the position after it. -/
-def jumpTargetsPending (insts : Array UInt8) : Nat → Nat → Nat → List Nat → Nat × List Nat
-  | 0, _, lastOp, pend => (lastOp, pend)
-  | fuel+1, i, lastOp, pend =>
-    if i ≥ insts.size then (lastOp, pend)
-    else
-      let op := (insts[i]!).toNat
-      let ws := operandWidths op
-      let width := ws.foldl (· + ·) 0
-      let rd (off w : Nat) : Nat := (List.range w).foldl (fun acc k => acc * 256 + (insts[i + 1 + off + k]!).toNat) 0
-      let pend := if op == OpJump || op == OpJumpFalsy || op == OpAndJump || op == OpOrJump
-        then (if pend.contains (rd 0 4) then pend else rd 0 4 :: pend) else pend
-      let pend := pend.filter (· != i)
-      jumpTargetsPending insts fuel (i + width + 1) op pend
+/-- `enterLoop` -/
+def pushLoop : CM Unit :=
+  modify fun s => { s with loops := { lastTryCatchIndex := s.tryCatchIndex } :: s.loops }
 
-def finishFn : CM CFn := do
+/-- `leaveLoop`; returns the loop object `enterLoop` created -/
+def popLoop : CM Loop := do
   let s ← get
-  let (lastOp, pend) := jumpTargetsPending s.insts (s.insts.size + 1) 0 0 []
-  if lastOp != OpReturn || !pend.isEmpty then
-    discard <| emit 0 OpReturn [0]
+  set { s with loops := s.loops.drop 1 }
+  pure (s.loops.head?.getD { lastTryCatchIndex := -1 })
+
+/-- `enterLoop()` … `leaveLoop()` around the loop body; returns the loop object -/
+def withLoop (body : CM Unit) : CM Loop := do
+  pushLoop
+  body
+  popLoop
+
+/-- `for _, pos := range ps { c.changeOperand(pos, target) }` -/
+def patchAll (target : Nat) : List Nat → CM Unit
+  | [] => pure ()
+  | p :: r => do changeOperand p [target]; patchAll target r
+
+/-- big-endian read of the `w`-byte operand at `i` -/
+def readBE (insts : Array UInt8) (i w : Nat) : Nat :=
+  (List.range w).foldl (fun acc k => acc * 256 + (insts[i + k]?.getD 0).toNat) 0
+
+/-- The scan of `Bytecode()`: last opcode and the set of jump targets not (yet) reached.
+    `none` = a Go index panic (`OpcodeOperands[op]` with an unknown opcode byte, or `ReadOperands`
+    reading past the end of a truncated instruction). -/
+def scanFn (insts : Array UInt8) : Nat → Nat → Nat → List Nat → Option (Nat × List Nat)
+  | 0, _, lastOp, pend => some (lastOp, pend)
+  | fuel+1, i, lastOp, pend =>
+    match insts[i]? with
+    | none => some (lastOp, pend)
+    | some opb =>
+      let op := opb.toNat
+      if op ≥ numOpcodes then none
+      else
+        let width := opWidth op
+        if i + 1 + width > insts.size then none
+        else
+          let pend := if op == OpJump || op == OpJumpFalsy || op == OpAndJump || op == OpOrJump
+            then (if pend.contains (readBE insts (i + 1) 4) then pend else readBE insts (i + 1) 4 :: pend) else pend
+          let pend := pend.filter (· != i)
+          scanFn insts fuel (i + width + 1) op pend
+
+/-- `Bytecode()` after the scan: append RETURN 0 unless the stream already ends in RETURN and no
+    jump targets the position after it; then collect the function. -/
+def finishTail (lastOp : Nat) (pend : List Nat) : CM CFn := do
+  (if lastOp != OpReturn || !pend.isEmpty then emit_ 0 OpReturn [0] else pure ())
   let s ← get
   let t ← headTable
   pure { numParams := t.numParams, numLocals := t.maxDefinition, variadic := s.variadic,
          insts := s.insts, sourceMap := s.sourceMap }
 
+/-- `Bytecode()` -/
+def finishFn : CM CFn := do
+  let s ← get
+  match scanFn s.insts (s.insts.size + 1) 0 0 [] with
+  | none => cpanic "runtime error: index out of range"
+  | some (lastOp, pend) => finishTail lastOp pend
+
+/-- `c.symbolTable = c.symbolTable.Fork(true)` … `c.symbolTable = c.symbolTable.Parent(false)` -/
+def withBlock (body : CM Unit) : CM Unit := do
+  forkTable true
+  body
+  let _ ← popTable
+  pure ()
+
+/-- `compileBlockStmt`: nothing for an empty block, else the statements (`act`) in a forked table -/
+def blockOf (body : List Stmt) (act : CM Unit) : CM Unit :=
+  if body.isEmpty then pure () else withBlock act
+
+/-- `compileDefine` -/
+def compileDefine (pos : Pos) (ident : String) (allowRedefine : Bool) (keyword : Nat) : CM Unit := do
+  let (sym, exists_) ← defineLocal ident
+  if !allowRedefine && exists_ && ident != "_" then cerr pos s!"\"{ident}\" redeclared in this block"
+  else if exists_ && sym.scope != .local_ && sym.scope != .constLit then
+    -- only a local can be defined again: a global of the same name has no local slot
+    cerr pos s!"\"{ident}\" redeclared in this block"
+  else if sym.constant then cerr pos s!"assignment to constant variable \"{ident}\""
+  else do
+    let s ← get
+    if s.iotaVal > -1 && ident == "iota" && keyword == tConst then cerr pos "assignment to iota"
+    else do
+      emit_ pos OpDefineLocal [sym.index]
+      updateSym ident fun y => { y with constant := keyword == tConst && ident != "_" }
+
+/-- `compileAssign(node, symbol, ident)` -/
+def compileAssignSym (pos : Pos) (sym : Symbol) (ident : String) : CM Unit := do
+  if sym.constant then cerr pos s!"assignment to constant variable \"{ident}\""
+  else match sym.scope with
+    | .local_ => emit_ pos OpSetLocal [sym.index]
+    | .free => emit_ pos OpSetFree [sym.index]
+    | .global => emit_ pos OpSetGlobal [sym.index]
+    | _ => cerr pos s!"unresolved reference \"{ident}\""
+
+/-- what `compileDeclValue` / `defineConstLit` look at in a value expression -/
+inductive VSum where
+  | lit (v : CVal)
+  | ident (name : String)
+  | other
+  deriving Inhabited
+
+def vsumOf (e : Expr) : VSum :=
+  match constLitOfExpr e with
+  | some v => .lit v
+  | none => match e with
+    | .ident _ n => .ident n
+    | _ => .other
+
+/-- `defineConstLit(lhs, rhs)` (called for `const` specs only) -/
+def defineConstLit (name : String) (v : VSum) : CM Bool := do
+  if name == "iota" || name == "_" then pure false
+  else match v with
+    | .lit cv => do
+      match (← defineConstLitSym name (some cv)) with
+      | some () => pure true
+      | none => pure false
+    | .ident rn =>
+      if rn == "iota" then do
+        if (← findSymbolSelf "iota").isNone then do
+          let iv := (← get).iotaVal
+          match (← defineConstLitSym name (some (.int (BitVec.ofInt 64 iv)))) with
+          | some () => pure true
+          | none => pure false
+        else pure false
+      else if rn != "_" then do
+        if (← hasAnyConstLit) then
+          match findByNameAll rn (← get).tables with
+          | some s1 =>
+            if s1.scope == .constLit then do
+              match (← defineConstLitSym name s1.constLit) with
+              | some () => pure true
+              | none => pure false
+            else pure false
+          | none => pure false
+        else pure false
+      else pure false
+    | .other => pure false
+
+/-- one identifier of a value spec: `defineConstLit`, else `compileAssignStmt(node, [ident], [v], tok, Define)` -/
+def compileValueIdent (pos : Pos) (tok : Nat) (name : String) (act : CM Unit) (sum : VSum) : CM Unit := do
+  let defined ← (if tok == tConst then defineConstLit name sum else pure false)
+  if defined then pure ()
+  else do
+    act
+    compileDefine pos name false tok
+
+/-- identifiers of a value spec that are left when its value list is exhausted -/
+def compileIdentsNoValue (pos : Pos) (tok : Nat) (last : Option (CM Unit × VSum)) : List (Pos × String) → CM Unit
+  | [] => pure ()
+  | (ipos, name) :: rest => do
+    (match (if tok == tConst then last else none) with
+     | some (act, sum) => compileValueIdent pos tok name act sum
+     | none => compileValueIdent pos tok name (emit_ ipos OpNull) (.lit .undefined))
+    compileIdentsNoValue pos tok last rest
+
+def declParamVariadic (pos : Pos) : List (Pos × String × Bool) → CM Unit
+  | [] => pure ()
+  | (_, _, va) :: rest => do
+    (if va then do
+      if (← get).variadic then cerr pos "multiple variadic param declaration"
+      else modify fun s => { s with variadic := true }
+     else pure ())
+    declParamVariadic pos rest
+
+def declGlobals (pos : Pos) : List (Pos × String × Bool) → CM Unit
+  | [] => pure ()
+  | (_, name, _) :: rest => do
+    let s ← get
+    let t ← headTable
+    match lookupSym name t.store with
+    | some sym =>
+      if sym.scope != .global then cerr pos s!"\"{name}\" redeclared in this block"
+      else do
+        let idx ← addConstant (.str name.toUTF8.toList)
+        updateSym name fun y => { y with index := idx }
+        declGlobals pos rest
+    | none => do
+      modHead fun t => shadowBuiltin s.builtins name { t with store := putSym name { name := name, index := -1, scope := .global } t.store }
+      let idx ← addConstant (.str name.toUTF8.toList)
+      updateSym name fun y => { y with index := idx }
+      declGlobals pos rest
+
+def emitFreePtrs (pos : Pos) : List Symbol → CM Unit
+  | [] => pure ()
+  | s :: r => do
+    (match s.scope with
+     | .local_ => emit_ pos OpGetLocalPtr [s.index]
+     | .free => emit_ pos OpGetFreePtr [s.index]
+     | _ => pure ())
+    emitFreePtrs pos r
+
+def compileIdent (pos : Pos) (name : String) : CM Unit := do
+  match (← resolve name) with
+  | none =>
+    let s ← get
+    if s.iotaVal < 0 || name != "iota" then cerr pos s!"unresolved reference \"{name}\""
+    else do
+      emitConstant pos (.int (BitVec.ofInt 64 s.iotaVal))
+  | some sym =>
+    match sym.scope with
+    | .global => emit_ pos OpGetGlobal [sym.index]
+    | .local_ => emit_ pos OpGetLocal [sym.index]
+    | .builtin => emit_ pos OpGetBuiltin [sym.index]
+    | .free => emit_ pos OpGetFree [sym.index]
+    | .constLit =>
+      if sym.constant then
+        match sym.constLit with
+        | some v => emitConstLit pos v
+        | none => cpanic "unexpected object type: <nil>"
+      else cpanic "symbol is not defined as constant but its scope is CONSTLIT"
+
+/-- the `catch` identifier (both before the jump and in `compileCatchStmt`) -/
+def defineCatchIdent (pos : Pos) (name : String) : CM Unit := do
+  let (sym, exists_) ← defineLocal name
+  if exists_ then emit_ pos OpSetLocal [sym.index]
+  else emit_ pos OpDefineLocal [sym.index]
+
+def compileBranch (pos : Pos) (tok : Nat) : CM Unit := do
+  if tok == tBreak || tok == tContinue then
+    match (← currentLoop) with
+    | none => cerr pos (if tok == tBreak then "break not allowed outside of loop" else "continue not allowed outside of loop")
+    | some loop => do
+      let s ← get
+      (if loop.lastTryCatchIndex != s.tryCatchIndex then emit_ pos OpFinalizer [loop.lastTryCatchIndex + 1]
+       else pure ())
+      let p ← emit pos OpJump [0]
+      if tok == tBreak then modLoop fun l => { l with breaks := l.breaks ++ [p] }
+      else modLoop fun l => { l with continues := l.continues ++ [p] }
+  else cerr pos "invalid branch statement"
+
+/-- key / value variable of a for-in statement -/
+def forinVar (pos : Pos) (itIdx : Int) (op : Nat) (name : String) : CM Unit := do
+  if name != "_" then do
+    let (ks, ex) ← defineLocal name
+    if ex then cerr pos s!"\"{name}\" redeclared in this block"
+    else do
+      emit_ pos OpGetLocal [itIdx]
+      emit_ pos op
+      emit_ pos OpDefineLocal [ks.index]
+  else pure ()
+
+/-- the fork of `compileFuncLit`: a fresh instruction stream, source map and loop stack; the
+    symbol tables and the constant pool are shared with the enclosing compiler -/
+def enterFn (variadic : Bool) : CM CState := do
+  let outer ← get
+  set { outer with insts := #[], sourceMap := [], loops := [], tryCatchIndex := -1, iotaVal := -1, variadic := variadic }
+  pure outer
+
+/-- back in the enclosing compiler after `fork.Bytecode()` -/
+def leaveFn (outer : CState) : CM Table := do
+  let inner ← get
+  let ft ← popTable
+  let inner' ← get
+  set { outer with tables := inner'.tables, constants := inner.constants }
+  pure ft
+
+/-- `compileAssignStmt(node, lhs, rhs, keyword, op)`.  The pieces that recurse into the
+    operands arrive as compile actions: `rhsAct` (all right-hand sides, `nrhs` of them), `lhs0Act`
+    (`c.Compile(lhs[0])`; a Go index panic for an empty list), `defAssign0`
+    (`compileDefineAssign(node, lhs[0], …)`, likewise) and `destruct tempIdx` (the loop of
+    `compileDestructuring`). -/
+def compileAssign (pos : Pos) (lhs : List Expr) (nrhs : Nat) (rhsAct lhs0Act defAssign0 : CM Unit)
+    (destruct : Int → CM Unit) (op : Nat) : CM Unit := do
+  if nrhs > 1 then cerr pos "multiple expressions on the right side not supported"
+  else if lhs.any isSelOrIndex && op == tDefine then cerr pos "operator ':=' not allowed with selector"
+  else if op != tAssign && op != tDefine then do
+    lhs0Act
+    rhsAct
+    (match compoundOp op with
+     | some t => emit_ pos OpBinaryOp [t]
+     | none => pure ())
+    defAssign0
+  else if lhs.length > 1 then do
+    let (sym, _) ← defineLocal ":array"
+    emit_ pos OpGetBuiltin [Gen.builtinMakeArray]
+    emitConstant pos (.int (BitVec.ofNat 64 lhs.length))
+    rhsAct
+    -- compileDestructuring
+    emit_ pos OpCall [2, 0]
+    emit_ pos OpDefineLocal [sym.index]
+    destruct sym.index
+    if !(← headTable).block then do
+      emit_ pos OpNull
+      emit_ pos OpSetLocal [sym.index]
+  else do
+    rhsAct
+    defAssign0
+
+/-- `compileFuncLit` around the body: `Fork(false)`, `SetParams`, the forked compiler, `Bytecode()`;
+    returns the compiled function and the function's symbol table -/
+def withFn (pos : Pos) (variadic : Bool) (params : List String) (body : CM Unit) : CM (CFn × Table) := do
+  forkTable false
+  setParams pos params
+  let outer ← enterFn variadic
+  body
+  let fn ← finishFn
+  let ft ← leaveFn outer
+  pure (fn, ft)
+
 mutual
-partial def compileExpr (e : Expr) : CM Unit := do
-  match e with
+def compileExpr : Expr → CM Unit
   | .paren _ e => compileExpr e
-  | .binary pos tok l r =>
+  | .binary pos tok l r => do
     -- (with const literals in scope the real compiler asks the optimizer; a no-op when it is off)
-    if tok == tLAnd || tok == tLOr then
+    if tok == tLAnd || tok == tLOr then do
       compileExpr l
       let jp ← emit pos (if tok == tLAnd then OpAndJump else OpOrJump) [0]
       compileExpr r
       changeOperand jp [(← curPos)]
-    else
+    else do
       compileExpr l
       compileExpr r
-      if tok == tEqual then discard <| emit pos OpEqual
-      else if tok == tNotEqual then discard <| emit pos OpNotEqual
+      if tok == tEqual then emit_ pos OpEqual
+      else if tok == tNotEqual then emit_ pos OpNotEqual
       else if !isBinaryOperator tok then cerr pos "invalid binary operator"
-      else discard <| emit pos OpBinaryOp [tok]
-  | .int pos v => do let i ← addConstant (.int v); discard <| emit pos OpConstant [i]
-  | .uint pos v => do let i ← addConstant (.uint v); discard <| emit pos OpConstant [i]
-  | .float pos v => do let i ← addConstant (.float v); discard <| emit pos OpConstant [i]
-  | .bool pos b => discard <| emit pos (if b then OpTrue else OpFalse)
-  | .str pos s => do let i ← addConstant (.str s); discard <| emit pos OpConstant [i]
-  | .char pos v => do let i ← addConstant (.char v); discard <| emit pos OpConstant [i]
-  | .undef pos => discard <| emit pos OpNull
-  | .unary pos tok e =>
+      else emit_ pos OpBinaryOp [tok]
+  | .int pos v => emitConstant pos (.int v)
+  | .uint pos v => emitConstant pos (.uint v)
+  | .float pos v => emitConstant pos (.float v)
+  | .bool pos b => if b then emit_ pos OpTrue else emit_ pos OpFalse
+  | .str pos s => emitConstant pos (.str s)
+  | .char pos v => emitConstant pos (.char v)
+  | .undef pos => emit_ pos OpNull
+  | .unary pos tok e => do
     compileExpr e
-    if tok == tNot || tok == tSub || tok == tXor || tok == tAdd then discard <| emit pos OpUnary [tok]
+    if tok == tNot || tok == tSub || tok == tXor || tok == tAdd then emit_ pos OpUnary [tok]
     else cerr pos "invalid unary operator"
-  | .ident pos name =>
-    match (← resolve name) with
-    | none =>
-      let s ← get
-      if s.iotaVal < 0 || name != "iota" then cerr pos s!"unresolved reference \"{name}\""
-      let i ← addConstant (.int (BitVec.ofInt 64 s.iotaVal))
-      discard <| emit pos OpConstant [i]
-    | some sym =>
-      match sym.scope with
-      | .global => discard <| emit pos OpGetGlobal [sym.index]
-      | .local_ => discard <| emit pos OpGetLocal [sym.index]
-      | .builtin => discard <| emit pos OpGetBuiltin [sym.index]
-      | .free => discard <| emit pos OpGetFree [sym.index]
-      | .constLit =>
-        match sym.constLit with
-        | some v => if sym.constant then emitConstLit pos v else cpanic "symbol is not defined as constant"
-        | none => cpanic "constLit without value"
-  | .array pos es =>
-    for x in es do compileExpr x
-    discard <| emit pos OpArray [es.length]
-  | .map pos es =>
-    for (k, v) in es do
-      let i ← addConstant (.str k.toUTF8.toList)
-      discard <| emit pos OpConstant [i]
-      compileExpr v
-    discard <| emit pos OpMap [es.length * 2]
-  | .selector pos e sel =>
-    let (base, sels) := resolveIndexExprs e
-    compileExpr base
-    for x in sels ++ [sel] do compileExpr x
-    discard <| emit pos OpGetIndex [(sels.length + 1 : Nat)]
-  | .index pos e i =>
-    let (base, idxs) := resolveIndexExprs (.index pos e i)
-    compileExpr base
-    for x in idxs do compileExpr x
-    discard <| emit pos OpGetIndex [idxs.length]
-  | .slice pos e lo hi =>
+  | .ident pos name => compileIdent pos name
+  | .array pos es => do
+    compileExprs es
+    emit_ pos OpArray [es.length]
+  | .map pos es => do
+    compileMapElems pos es
+    emit_ pos OpMap [es.length * 2]
+  | .selector pos e sel => do
+    let n ← compileIndexChain e (compileExpr e)
+    compileExpr sel
+    emit_ pos OpGetIndex [(n + 1 : Nat)]
+  | .index pos e i => do
+    let n ← compileIndexChain e (compileExpr e)
+    compileExpr i
+    emit_ pos OpGetIndex [(n + 1 : Nat)]
+  | .slice pos e lo hi => do
     compileExpr e
-    match lo with | some x => compileExpr x | none => discard <| emit pos OpNull
-    match hi with | some x => compileExpr x | none => discard <| emit pos OpNull
-    discard <| emit pos OpSliceIndex
-  | .func pos variadic params bodyPos body =>
-    -- symbolTable.Fork(false); SetParams; fork compiler
-    forkTable false
-    setParams pos params
-    let outer ← get
-    set { outer with insts := #[], sourceMap := [], loops := [], tryCatchIndex := -1, iotaVal := -1, variadic := variadic }
-    compileStmt (.block bodyPos body)
-    let fn ← finishFn
-    let inner ← get
-    let ft ← popTable
-    -- back in the enclosing compiler: constants come from the fork, tables are shared
-    let inner' ← get
-    set { outer with tables := inner'.tables, constants := inner.constants }
-    for s in ft.frees do
-      match s.scope with
-      | .local_ => discard <| emit pos OpGetLocalPtr [s.index]
-      | .free => discard <| emit pos OpGetFreePtr [s.index]
-      | _ => pure ()
+    (match lo with | some x => compileExpr x | none => emit_ pos OpNull)
+    (match hi with | some x => compileExpr x | none => emit_ pos OpNull)
+    emit_ pos OpSliceIndex
+  | .func pos variadic params _ body => do
+    let (fn, ft) ← withFn pos variadic params (blockOf body (compileStmts body))
+    emitFreePtrs pos ft.frees
     if fn.numLocals > 256 then throw (.err pos "SymbolLimitError: number of local symbols exceeds the limit")
-    let idx ← addFnConstant fn
-    if ft.frees.length > 0 then discard <| emit pos OpClosure [idx, ft.frees.length]
-    else discard <| emit pos OpConstant [idx]
+    else do
+      emitFnConstant pos fn ft.frees.length
   | .call pos ellipsis f args =>
     match f with
-    | .selector _ se ssel =>
+    | .selector _ se ssel => do
       compileExpr se
-      for a in args do compileExpr a
+      compileExprs args
       compileExpr ssel
-      discard <| emit pos OpCallName [args.length, if ellipsis then 1 else 0]
-    | f =>
+      emit_ pos OpCallName [args.length, if ellipsis then 1 else 0]
+    | f => do
       compileExpr f
-      for a in args do compileExpr a
-      discard <| emit pos OpCall [args.length, if ellipsis then 1 else 0]
+      compileExprs args
+      emit_ pos OpCall [args.length, if ellipsis then 1 else 0]
   | .import_ _ _ => cunsupported "import expression"
   | .cond pos c t f =>
     match c with
     | .bool _ b => if b then compileExpr t else compileExpr f
-    | c =>
+    | c => do
       compileExpr c
       let j1 ← emit pos OpJumpFalsy [0]
       compileExpr t
@@ -581,315 +877,256 @@ partial def compileExpr (e : Expr) : CM Unit := do
       compileExpr f
       changeOperand j2 [(← curPos)]
 
-partial def compileStmts (ss : List Stmt) : CM Unit := do
-  for s in ss do compileStmt s
+def compileExprs : List Expr → CM Unit
+  | [] => pure ()
+  | e :: r => do compileExpr e; compileExprs r
 
-/-- `compileDefine` -/
-partial def compileDefine (pos : Pos) (ident : String) (allowRedefine : Bool) (keyword : Nat) : CM Unit := do
-  let (sym, exists_) ← defineLocal ident
-  if !allowRedefine && exists_ && ident != "_" then cerr pos s!"\"{ident}\" redeclared in this block"
-  if sym.constant then cerr pos s!"assignment to constant variable \"{ident}\""
-  let s ← get
-  if s.iotaVal > -1 && ident == "iota" && keyword == tConst then cerr pos "assignment to iota"
-  discard <| emit pos OpDefineLocal [sym.index]
-  updateSym ident fun y => { y with constant := keyword == tConst && ident != "_" }
+def compileMapElems (pos : Pos) : List (String × Expr) → CM Unit
+  | [] => pure ()
+  | (k, v) :: r => do
+    emitConstant pos (.str k.toUTF8.toList)
+    compileExpr v
+    compileMapElems pos r
+
+/-- `resolveIndexExprs(e)` compiled in place: the base expression, then every index of the chain
+    in source order; returns the number of indexes.  `self` is the compile action of `e` itself
+    (`compileExpr e`, supplied by the caller so that the recursion stays structural); it is run
+    when `e` is not an index expression, i.e. when `e` is the base. -/
+def compileIndexChain : Expr → CM Unit → CM Nat
+  | .index _ e i, _ => do
+    let n ← compileIndexChain e (compileExpr e)
+    compileExpr i
+    pure (n + 1)
+  | _, self => do self; pure 0
+
+/-- the selectors of `resolveAssignLHS(e)` compiled in source order -/
+def compileSelChain : Expr → CM Unit
+  | .selector _ e s => do compileSelChain e; compileExpr s
+  | .index _ e i => do compileSelChain e; compileExpr i
+  | _ => pure ()
+
+def compileStmts : List Stmt → CM Unit
+  | [] => pure ()
+  | s :: r => do compileStmt s; compileStmts r
 
 /-- `compileDefineAssign` -/
-partial def compileDefineAssign (pos : Pos) (lhs : Expr) (keyword op : Nat) (allowRedefine : Bool) : CM Unit := do
-  let (ident, selectors) := resolveAssignLHS lhs
-  let numSel := selectors.length
-  if numSel == 0 && op == tDefine then
-    return (← compileDefine pos ident allowRedefine keyword)
-  match (← resolve ident) with
-  | none => cerr pos s!"unresolved reference \"{ident}\""
-  | some sym =>
-    if numSel == 0 then
-      if sym.constant then cerr pos s!"assignment to constant variable \"{ident}\""
-      match sym.scope with
-      | .local_ => discard <| emit pos OpSetLocal [sym.index]
-      | .free => discard <| emit pos OpSetFree [sym.index]
-      | .global => discard <| emit pos OpSetGlobal [sym.index]
-      | _ => cerr pos s!"unresolved reference \"{ident}\""
-    else
-      match sym.scope with
-      | .local_ => discard <| emit pos OpGetLocal [sym.index]
-      | .free => discard <| emit pos OpGetFree [sym.index]
-      | .global => discard <| emit pos OpGetGlobal [sym.index]
-      | _ => cerr pos s!"unexpected scope for symbol \"{ident}\""
-      if numSel > 1 then
-        for x in selectors.take (numSel - 1) do compileExpr x
-        discard <| emit pos OpGetIndex [(numSel - 1 : Nat)]
-      compileExpr (selectors[numSel - 1]!)
-      discard <| emit pos OpSetIndex
+def compileDefineAssign (pos : Pos) (lhs : Expr) (keyword op : Nat) (allowRedefine : Bool) : CM Unit :=
+  match lhs with
+  | .selector _ e last | .index _ e last => do
+    -- numSel = lhsNumSel e + 1 > 0
+    match (← resolve (lhsName e)) with
+    | none => cerr pos s!"unresolved reference \"{lhsName e}\""
+    | some sym => do
+      (match sym.scope with
+       | .local_ => emit_ pos OpGetLocal [sym.index]
+       | .free => emit_ pos OpGetFree [sym.index]
+       | .global => emit_ pos OpGetGlobal [sym.index]
+       | _ => cerr pos s!"unexpected scope for symbol \"{lhsName e}\"")
+      (if lhsNumSel e > 0 then do
+        compileSelChain e
+        emit_ pos OpGetIndex [(lhsNumSel e : Nat)]
+       else pure ())
+      compileExpr last
+      emit_ pos OpSetIndex
+  | lhs =>
+    -- numSel = 0
+    if op == tDefine then compileDefine pos (lhsName lhs) allowRedefine keyword
+    else do
+      match (← resolve (lhsName lhs)) with
+      | none => cerr pos s!"unresolved reference \"{lhsName lhs}\""
+      | some sym => compileAssignSym pos sym (lhsName lhs)
 
-/-- `compileAssignStmt(node, lhs, rhs, keyword, op)` -/
-partial def compileAssign (pos : Pos) (lhs rhs : List Expr) (keyword op : Nat) : CM Unit := do
-  if rhs.length > 1 then cerr pos "multiple expressions on the right side not supported"
-  let selector := lhs.any fun e => match e with | .selector .. | .index .. => true | _ => false
-  if selector && op == tDefine then cerr pos "operator ':=' not allowed with selector"
-  let mut isArrDestruct := false
-  let mut tempIdx : Int := 0
-  if op != tAssign && op != tDefine then
-    compileExpr (lhs[0]!)
-  else if lhs.length > 1 then
-    isArrDestruct := true
-    let (sym, _) ← defineLocal ":array"
-    tempIdx := sym.index
-    discard <| emit pos OpGetBuiltin [Gen.builtinMakeArray]
-    let i ← addConstant (.int (BitVec.ofNat 64 lhs.length))
-    discard <| emit pos OpConstant [i]
-  for e in rhs do compileExpr e
-  if isArrDestruct then
-    -- compileDestructuring
-    discard <| emit pos OpCall [2, 0]
-    discard <| emit pos OpDefineLocal [tempIdx]
-    let numLHS := lhs.length
-    let mut found := 0
-    let mut k := 0
-    for e in lhs do
-      if op == tDefine then
-        match e with
-        | .ident _ n => if (← findSymbolSelf n).isSome then found := found + 1
-        | _ => pure ()
-        if found == numLHS then cerr pos "no new variable on the left side"
-      discard <| emit pos OpGetLocal [tempIdx]
-      let i ← addConstant (.int (BitVec.ofNat 64 k))
-      discard <| emit pos OpConstant [i]
-      discard <| emit pos OpGetIndex [1]
+/-- the loop of `compileDestructuring` -/
+def compileDestructure (pos : Pos) (keyword op : Nat) (numLHS : Nat) (tempIdx : Int) : List Expr → Nat → Nat → CM Unit
+  | [], _, _ => pure ()
+  | e :: rest, k, found => do
+    let found ← (if op == tDefine then
+        (match e with
+         | .ident _ n => do if (← findSymbolSelf n).isSome then pure (found + 1) else pure found
+         | _ => pure found)
+      else pure found)
+    if op == tDefine && found == numLHS then cerr pos "no new variable on the left side"
+    else do
+      emit_ pos OpGetLocal [tempIdx]
+      emitConstant pos (.int (BitVec.ofNat 64 k))
+      emit_ pos OpGetIndex [1]
       compileDefineAssign pos e keyword op (keyword != tConst)
-      k := k + 1
-    if !(← headTable).block then
-      discard <| emit pos OpNull
-      discard <| emit pos OpSetLocal [tempIdx]
-    return
-  if op != tAssign && op != tDefine then
-    match compoundOp op with
-    | some t => discard <| emit pos OpBinaryOp [t]
-    | none => pure ()
-  compileDefineAssign pos (lhs[0]!) keyword op false
+      compileDestructure pos keyword op numLHS tempIdx rest (k + 1) found
 
-partial def compileStmt (st : Stmt) : CM Unit := do
-  match st with
+/-- identifiers and values of one value spec, in step; `last` is the last explicit value seen in
+    this declaration (its compile action and what `defineConstLit` looks at) -/
+def compileValueIdents (pos : Pos) (tok : Nat) : List (Pos × String) → List (Option Expr) →
+    Option (CM Unit × VSum) → CM (Option (CM Unit × VSum))
+  | [], _, last => pure last
+  | idents, [], last => do compileIdentsNoValue pos tok last idents; pure last
+  | (ipos, name) :: irest, v? :: vrest, last =>
+    match v? with
+    | some v => do
+      compileValueIdent pos tok name (compileExpr v) (vsumOf v)
+      compileValueIdents pos tok irest vrest (some (compileExpr v, vsumOf v))
+    | none => do
+      (match (if tok == tConst then last else none) with
+       | some (act, sum) => compileValueIdent pos tok name act sum
+       | none => compileValueIdent pos tok name (emit_ ipos OpNull) (.lit .undefined))
+      compileValueIdents pos tok irest vrest last
+
+def compileValueSpecs (pos : Pos) (tok : Nat) : List (Option Nat × List (Pos × String) × List (Option Expr)) →
+    Option (CM Unit × VSum) → CM Unit
+  | [], _ => pure ()
+  | (iota, idents, values) :: rest, last => do
+    (if tok == tConst then
+      (match iota with
+       | some v => modify fun s => { s with iotaVal := v }
+       | none => cerr pos "invalid iota value")
+     else pure ())
+    let last ← compileValueIdents pos tok idents values last
+    compileValueSpecs pos tok rest last
+
+def compileStmt : Stmt → CM Unit
   | .empty _ => pure ()
-  | .expr pos e => compileExpr e; discard <| emit pos OpPop
-  | .incdec pos tok tokPos e =>
-    compileAssign pos [e] [.int tokPos 1#64] tVar (if tok == tDec then tSubAssign else tAddAssign)
-  | .assign pos tok lhs rhs => compileAssign pos lhs rhs tVar tok
-  | .block _ body =>
-    if body.isEmpty then return
-    forkTable true
-    compileStmts body
-    discard <| popTable
-  | .if_ pos init cond bodyPos body else_ =>
-    forkTable true
-    match init with | some i => compileStmt i | none => pure ()
-    let mut jumpPos1 : Option Nat := none
-    let mut skipElse := false
-    match cond with
-    | .bool _ true => compileStmt (.block bodyPos body); skipElse := true
-    | .bool _ false => jumpPos1 := some (← emit pos OpJump [0])
-    | c =>
-      compileExpr c
-      jumpPos1 := some (← emit pos OpJumpFalsy [0])
-      compileStmt (.block bodyPos body)
-    if !skipElse && else_.isSome then
-      let jumpPos2 ← emit pos OpJump [0]
-      match jumpPos1 with | some j => changeOperand j [(← curPos)] | none => pure ()
-      match else_ with | some e => compileStmt e | none => pure ()
-      changeOperand jumpPos2 [(← curPos)]
-    else
-      match jumpPos1 with | some j => changeOperand j [(← curPos)] | none => pure ()
-    discard <| popTable
-  | .try_ pos _ body catch_ finally_ =>
-    forkTable true
-    modify fun s => { s with tryCatchIndex := s.tryCatchIndex + 1 }
-    let optry ← emit pos OpSetupTry [0, 0]
-    compileStmts body
-    let mut catchPos := 0
-    let mut finallyPos := 0
-    let mut opjump := 0
-    match catch_ with
-    | some (cpos, ident, _, cbody) =>
-      match ident with
-      | some name =>
-        discard <| emit cpos OpNull
-        let (sym, exists_) ← defineLocal name
-        if exists_ then discard <| emit pos OpSetLocal [sym.index]
-        else discard <| emit pos OpDefineLocal [sym.index]
-      | none => pure ()
-      opjump ← emit pos OpJump [0]
-      catchPos ← curPos
-      -- compileCatchStmt
-      discard <| emit cpos OpSetupCatch
-      match ident with
-      | some name =>
-        let (sym, exists_) ← defineLocal name
-        if exists_ then discard <| emit cpos OpSetLocal [sym.index]
-        else discard <| emit cpos OpDefineLocal [sym.index]
-      | none => discard <| emit cpos OpPop
-      compileStmts cbody
-    | none => pure ()
-    match finally_ with
-    | some (fpos, _, fbody) =>
-      finallyPos ← emit fpos OpSetupFinally
-      compileStmts fbody
-    | none => finallyPos ← emit pos OpSetupFinally
-    changeOperand optry [catchPos, finallyPos]
-    if catch_.isSome then changeOperand opjump [finallyPos]
-    -- deferred: Parent(false); emit THROW 0; tryCatchIndex--
-    discard <| popTable
-    discard <| emit pos OpThrow [0]
+  | .expr pos e => do compileExpr e; emit_ pos OpPop
+  | .incdec pos tok tokPos e => do
+    -- compileAssignStmt(node, [e], [IntLit 1 @tokPos], Var, op) with op a compound assignment
+    compileExpr e
+    emitConstant tokPos (.int 1#64)
+    (match compoundOp (if tok == tDec then tSubAssign else tAddAssign) with
+     | some t => emit_ pos OpBinaryOp [t]
+     | none => pure ())
+    compileDefineAssign pos e tVar (if tok == tDec then tSubAssign else tAddAssign) false
+  | .assign pos tok lhs rhs =>
+    compileAssign pos lhs rhs.length (compileExprs rhs)
+      (match lhs with
+       | e0 :: _ => compileExpr e0
+       | [] => cpanic "runtime error: index out of range [0] with length 0")
+      (match lhs with
+       | e0 :: _ => compileDefineAssign pos e0 tVar tok false
+       | [] => cpanic "runtime error: index out of range [0] with length 0")
+      (fun tempIdx => compileDestructure pos tVar tok lhs.length tempIdx lhs 0 0) tok
+  | .block _ body => blockOf body (compileStmts body)
+  | .if_ pos init cond _ body else_ =>
+    withBlock do
+      (match init with | some i => compileStmt i | none => pure ())
+      match cond with
+      | .bool _ true => blockOf body (compileStmts body)
+      | .bool _ false => do
+        let j ← emit pos OpJump [0]
+        match else_ with
+        | some e => do
+          let j2 ← emit pos OpJump [0]
+          changeOperand j [(← curPos)]
+          compileStmt e
+          changeOperand j2 [(← curPos)]
+        | none => changeOperand j [(← curPos)]
+      | c => do
+        compileExpr c
+        let j ← emit pos OpJumpFalsy [0]
+        blockOf body (compileStmts body)
+        match else_ with
+        | some e => do
+          let j2 ← emit pos OpJump [0]
+          changeOperand j [(← curPos)]
+          compileStmt e
+          changeOperand j2 [(← curPos)]
+        | none => changeOperand j [(← curPos)]
+  | .try_ pos _ body catch_ finally_ => do
+    withBlock do
+      modify fun s => { s with tryCatchIndex := s.tryCatchIndex + 1 }
+      let optry ← emit pos OpSetupTry [0, 0]
+      compileStmts body
+      match catch_ with
+      | some (cpos, ident, _, cbody) => do
+        (match ident with
+         | some name => do emit_ cpos OpNull; defineCatchIdent pos name
+         | none => pure ())
+        let opjump ← emit pos OpJump [0]
+        let catchPos ← curPos
+        -- compileCatchStmt
+        emit_ cpos OpSetupCatch
+        (match ident with
+         | some name => defineCatchIdent cpos name
+         | none => emit_ cpos OpPop)
+        compileStmts cbody
+        let finallyPos ← (match finally_ with
+          | some (fpos, _, fbody) => do let p ← emit fpos OpSetupFinally; compileStmts fbody; pure p
+          | none => emit pos OpSetupFinally)
+        changeOperand optry [catchPos, finallyPos]
+        changeOperand opjump [finallyPos]
+      | none => do
+        let finallyPos ← (match finally_ with
+          | some (fpos, _, fbody) => do let p ← emit fpos OpSetupFinally; compileStmts fbody; pure p
+          | none => emit pos OpSetupFinally)
+        changeOperand optry [0, finallyPos]
+    -- deferred: Parent(false) (end of withBlock); emit THROW 0; tryCatchIndex--
+    emit_ pos OpThrow [0]
     modify fun s => { s with tryCatchIndex := s.tryCatchIndex - 1 }
-  | .throw pos e =>
-    match e with | some x => compileExpr x | none => pure ()
-    discard <| emit pos OpThrow [1]
-  | .branch pos tok =>
-    if tok == tBreak || tok == tContinue then
-      match (← currentLoop) with
-      | none => cerr pos (if tok == tBreak then "break not allowed outside of loop" else "continue not allowed outside of loop")
-      | some loop =>
-        let s ← get
-        if loop.lastTryCatchIndex != s.tryCatchIndex then
-          discard <| emit pos OpFinalizer [loop.lastTryCatchIndex + 1]
-        let p ← emit pos OpJump [0]
-        if tok == tBreak then modLoop fun l => { l with breaks := l.breaks ++ [p] }
-        else modLoop fun l => { l with continues := l.continues ++ [p] }
-    else cerr pos "invalid branch statement"
+  | .throw pos e => do
+    (match e with | some x => compileExpr x | none => pure ())
+    emit_ pos OpThrow [1]
+  | .branch pos tok => compileBranch pos tok
   | .return_ pos e =>
     match e with
-    | none =>
-      if (← get).tryCatchIndex > -1 then discard <| emit pos OpFinalizer [0]
-      discard <| emit pos OpReturn [0]
-    | some x =>
-      compileExpr x
-      if (← get).tryCatchIndex > -1 then discard <| emit pos OpFinalizer [0]
-      discard <| emit pos OpReturn [1]
-  | .for_ pos init cond post bodyPos body =>
-    forkTable true
-    match init with | some i => compileStmt i | none => pure ()
-    let preCondPos ← curPos
-    let mut postCondPos : Option Nat := none
-    match cond with
-    | some c => compileExpr c; postCondPos := some (← emit pos OpJumpFalsy [0])
-    | none => pure ()
-    modify fun s => { s with loops := { lastTryCatchIndex := s.tryCatchIndex } :: s.loops }
-    compileStmt (.block bodyPos body)
-    let loop := (← currentLoop).getD { lastTryCatchIndex := -1 }
-    modify fun s => { s with loops := s.loops.drop 1 }
-    let postBodyPos ← curPos
-    match post with | some p => compileStmt p | none => pure ()
-    discard <| emit pos OpJump [preCondPos]
-    let postStmtPos ← curPos
-    match postCondPos with | some j => changeOperand j [postStmtPos] | none => pure ()
-    for p in loop.breaks do changeOperand p [postStmtPos]
-    for p in loop.continues do changeOperand p [postBodyPos]
-    discard <| popTable
-  | .forin pos key value iter bodyPos body =>
-    forkTable true
-    let (itSym, exists_) ← defineLocal ":it"
-    if exists_ then cerr pos ":it redeclared in this block"
-    compileExpr iter
-    discard <| emit pos OpIterInit
-    discard <| emit pos OpDefineLocal [itSym.index]
-    let preCondPos ← curPos
-    discard <| emit pos OpGetLocal [itSym.index]
-    discard <| emit pos OpIterNext
-    let postCondPos ← emit pos OpJumpFalsy [0]
-    modify fun s => { s with loops := { lastTryCatchIndex := s.tryCatchIndex } :: s.loops }
-    if key != "_" then
-      let (ks, ex) ← defineLocal key
-      if ex then cerr pos s!"\"{key}\" redeclared in this block"
-      discard <| emit pos OpGetLocal [itSym.index]
-      discard <| emit pos OpIterKey
-      discard <| emit pos OpDefineLocal [ks.index]
-    if value != "_" then
-      let (vs, ex) ← defineLocal value
-      if ex then cerr pos s!"\"{value}\" redeclared in this block"
-      discard <| emit pos OpGetLocal [itSym.index]
-      discard <| emit pos OpIterValue
-      discard <| emit pos OpDefineLocal [vs.index]
-    compileStmt (.block bodyPos body)
-    let loop := (← currentLoop).getD { lastTryCatchIndex := -1 }
-    modify fun s => { s with loops := s.loops.drop 1 }
-    let postBodyPos ← curPos
-    discard <| emit pos OpJump [preCondPos]
-    let postStmtPos ← curPos
-    changeOperand postCondPos [postStmtPos]
-    for p in loop.breaks do changeOperand p [postStmtPos]
-    for p in loop.continues do changeOperand p [postBodyPos]
-    discard <| popTable
-  | .declParam pos specs =>
-    if (← get).tables.length > 1 then cerr pos "param not allowed in this scope"
-    for (_, _, va) in specs do
-      if va then
-        if (← get).variadic then cerr pos "multiple variadic param declaration"
-        modify fun s => { s with variadic := true }
-    setParams pos (specs.map fun (_, n, _) => n)
-  | .declGlobal pos specs =>
-    if (← get).tables.length > 1 then cerr pos "global not allowed in this scope"
-    for (_, name, _) in specs do
+    | none => do
       let s ← get
-      let t ← headTable
-      match lookupSym name t.store with
-      | some sym =>
-        if sym.scope != .global then cerr pos s!"\"{name}\" redeclared in this block"
-        let idx ← addConstant (.str name.toUTF8.toList)
-        updateSym name fun y => { y with index := idx }
-      | none =>
-        modHead fun t => shadowBuiltin s.builtins name { t with store := putSym name { name := name, index := -1, scope := .global } t.store }
-        let idx ← addConstant (.str name.toUTF8.toList)
-        updateSym name fun y => { y with index := idx }
-  | .declValue pos tok specs =>
+      (if s.tryCatchIndex > -1 then emit_ pos OpFinalizer [0] else pure ())
+      emit_ pos OpReturn [0]
+    | some x => do
+      compileExpr x
+      let s ← get
+      (if s.tryCatchIndex > -1 then emit_ pos OpFinalizer [0] else pure ())
+      emit_ pos OpReturn [1]
+  | .for_ pos init cond post _ body =>
+    withBlock do
+      (match init with | some i => compileStmt i | none => pure ())
+      let preCondPos ← curPos
+      let postCondPos ← (match cond with
+        | some c => do compileExpr c; let p ← emit pos OpJumpFalsy [0]; pure (some p)
+        | none => pure none)
+      let loop ← withLoop (blockOf body (compileStmts body))
+      let postBodyPos ← curPos
+      (match post with | some p => compileStmt p | none => pure ())
+      emit_ pos OpJump [preCondPos]
+      let postStmtPos ← curPos
+      (match postCondPos with | some j => changeOperand j [postStmtPos] | none => pure ())
+      patchAll postStmtPos loop.breaks
+      patchAll postBodyPos loop.continues
+  | .forin pos key value iter _ body =>
+    withBlock do
+      let (itSym, exists_) ← defineLocal ":it"
+      if exists_ then cerr pos ":it redeclared in this block"
+      else do
+        compileExpr iter
+        emit_ pos OpIterInit
+        emit_ pos OpDefineLocal [itSym.index]
+        let preCondPos ← curPos
+        emit_ pos OpGetLocal [itSym.index]
+        emit_ pos OpIterNext
+        let postCondPos ← emit pos OpJumpFalsy [0]
+        let loop ← withLoop (do
+          forinVar pos itSym.index OpIterKey key
+          forinVar pos itSym.index OpIterValue value
+          blockOf body (compileStmts body))
+        let postBodyPos ← curPos
+        emit_ pos OpJump [preCondPos]
+        let postStmtPos ← curPos
+        changeOperand postCondPos [postStmtPos]
+        patchAll postStmtPos loop.breaks
+        patchAll postBodyPos loop.continues
+  | .declParam pos specs => do
+    -- compileDeclStmt: `len(decl.Specs) == 0` is checked for every declaration kind
     if specs.isEmpty then cerr pos "empty declaration not allowed"
-    let isConst := tok == tConst
-    let mut lastExpr : Option Expr := none
-    for (iota, idents, values) in specs do
-      if isConst then
-        match iota with
-        | some v => modify fun s => { s with iotaVal := v }
-        | none => cerr pos "invalid iota value"
-      let mut i := 0
-      for (ipos, name) in idents do
-        let v? : Option Expr := (values[i]?).bind id
-        let v : Expr := match v? with
-          | some v => v
-          | none =>
-            match isConst, lastExpr with
-            | true, some le => le
-            | _, _ => Expr.undef ipos
-        if v?.isSome then lastExpr := v?
-        i := i + 1
-        let mut defined := false
-        if isConst && name != "iota" && name != "_" then
-          -- defineConstLit
-          match constLitOfExpr v with
-          | some cv =>
-            match (← defineConstLitSym name) with
-            | some () => updateSym name (fun y => { y with constLit := some cv }); defined := true
-            | none => pure ()
-          | none =>
-            match v with
-            | .ident _ rn =>
-              if rn == "iota" then
-                if (← findSymbolSelf "iota").isNone then
-                  match (← defineConstLitSym name) with
-                  | some () =>
-                    let iv := (← get).iotaVal
-                    updateSym name (fun y => { y with constLit := some (.int (BitVec.ofInt 64 iv)) }); defined := true
-                  | none => pure ()
-              else if rn != "_" then
-                if (← hasAnyConstLit) then
-                  match findByNameAll rn (← get).tables with
-                  | some s1 =>
-                    if s1.scope == .constLit then
-                      match (← defineConstLitSym name) with
-                      | some () => updateSym name (fun y => { y with constLit := s1.constLit }); defined := true
-                      | none => pure ()
-                  | none => pure ()
-            | _ => pure ()
-        if !defined then
-          compileAssign pos [.ident ipos name] [v] tok tDefine
-    if isConst then modify fun s => { s with iotaVal := -1 }
+    else if (← get).tables.length > 1 then cerr pos "param not allowed in this scope"
+    else do
+      declParamVariadic pos specs
+      setParams pos (specs.map fun (_, n, _) => n)
+  | .declGlobal pos specs => do
+    if specs.isEmpty then cerr pos "empty declaration not allowed"
+    else if (← get).tables.length > 1 then cerr pos "global not allowed in this scope"
+    else declGlobals pos specs
+  | .declValue pos tok specs => do
+    if specs.isEmpty then cerr pos "empty declaration not allowed"
+    else do
+      compileValueSpecs pos tok specs none
+      if tok == tConst then modify fun s => { s with iotaVal := -1 }
 end
 
 /-- result of `Compile(script, {NoOptimize: true, SymbolTable: fresh})` -/
@@ -900,13 +1137,19 @@ structure Bytecode where
 
 def maxNumLocals := 256
 
+/-- `compileScript` after parsing, with the optimizer off: `Compile(file)`, `Bytecode()`, the
+    `NumLocals > maxNumLocals` check; the deferred `recover()` of `*operandError` is the `.err` /
+    `.bare` result of `emit` / `changeOperand`. -/
+def compileProg (file : List Stmt) : CM Bytecode := do
+  compileStmts file
+  let fn ← finishFn
+  if fn.numLocals > maxNumLocals then throw (.bare "SymbolLimitError: number of local symbols exceeds the limit")
+  else pure { main := fn, constants := (← get).constants }
+
+def initState (builtins : List (String × Nat)) (disabled : List String) : CState :=
+  { tables := [{ disabled := disabled }], builtins := builtins }
+
 def compileFile (builtins : List (String × Nat)) (disabled : List String) (file : List Stmt) : Except CErr Bytecode :=
-  let init : CState := { tables := [{ disabled := disabled }], builtins := builtins }
-  let prog : CM Bytecode := do
-    compileStmts file
-    let fn ← finishFn
-    if fn.numLocals > maxNumLocals then throw (.bare "SymbolLimitError: number of local symbols exceeds the limit")
-    pure { main := fn, constants := (← get).constants }
-  (prog.run.run init).1
+  ((compileProg file).run.run (initState builtins disabled)).1
 
 end UgoVerif.Compile
